@@ -266,7 +266,7 @@ func init() {
 			ID: "C10",
 			Runs: []Run{{S: c10Scenario(), Opt: map[Tier]Options{
 				Quick:    {Depth: 4, Budget: 150 * time.Second, ReplayEvery: 4},
-				Thorough: {Depth: 7, Budget: 25 * time.Minute, ReplayEvery: 8, MaxStates: 400000},
+				Thorough: {Depth: 7, Budget: 15 * time.Minute, ReplayEvery: 8, MaxStates: 400000},
 			}}},
 			// escrow backing at block boundaries, conservation / fee split / ledger from observed movements, registered invariant,
 			// and no transfer into the escrow account
